@@ -428,9 +428,8 @@ class Generator(object):
 
     def format_bit_string(self, type_, checker):
         def get_value(value):
-            byte = (length - 1) - (value // 8)
-            bit = 7 - (value % 8)
-            return ('0x{:0' + str(length // 4) + 'x}').format(1 << (bit + byte * 8))
+            shift = self.bit_string_first_bit_shift(checker.minimum) - value
+            return ('0x{:0' + str(length // 4) + 'x}').format(1 << shift)
 
         if checker.minimum != checker.maximum:
             raise self.error('BIT STRING with variable SIZE not supported.')
@@ -440,7 +439,7 @@ class Generator(object):
 
         max_value = 2**checker.minimum - 1
 
-        length = self.value_length(max_value)
+        length = (checker.minimum + 7) // 8
         named_bits = self.get_named_number_values(type_)
         type_name = self.format_type_name(max_value, max_value)
 
@@ -452,6 +451,15 @@ class Generator(object):
             ]
 
         return [type_name]
+
+    def bit_string_first_bit_shift(self, size):
+        """Position of bit zero of a BIT STRING of given size in the C
+        integer holding it. The bits are left aligned in the fewest
+        possible bytes by default.
+
+        """
+
+        return 8 * ((size + 7) // 8) - 1
 
     def format_sequence(self, type_, checker):
         lines = []
